@@ -332,6 +332,9 @@ inductive Fn where
   | eqTo (o : Obj) | ltThan (n : Int)                          -- (lambda (x) (equal x 'o)), (lambda (x) (< x n))
   | eq | eql | equal | lt | le | gt | ge | numEq | charEq | charLt  -- binary, boolean
   | sameParity                                                 -- (lambda (a b) (= (mod a 2) (mod b 2)))
+  -- a test that treats its arguments differently (for the set functions; first list over 0..9, second over
+  -- 10..19): (lambda (a b) (if (< a 10) (if (< b 10) (= a b) (= (+ a 10) b)) (if (< b 10) nil (= a b))))
+  | dir10
   | add | sub | cons | list | max                              -- n-ary, value
   -- user lambdas that themselves call sequence functions (re-entrancy through other forms), on
   -- elements that are proper lists: (lambda (x) (count 'o x)), (find 'o x), (position 'o x),
@@ -390,6 +393,9 @@ def Fn.call : Fn → List Obj → Option Obj
   | .charEq, [.chr a, .chr b] => some (ofBool (a = b))
   | .charLt, [.chr a, .chr b] => some (ofBool (a < b))
   | .sameParity, [.int a, .int b] => some (ofBool (a % 2 = b % 2))
+  | .dir10, [.int a, .int b] => some (ofBool (
+      if a < 10 then (if b < 10 then decide (a = b) else decide (a + 10 = b))
+      else (if b < 10 then false else decide (a = b))))
   | .add, [] => some (.int 0)
   | .add, [.int a] => some (.int a)
   | .add, [.int a, .int b] => some (.int (a + b))
@@ -650,11 +656,13 @@ def rassoc (p : Obj → Bool) (alist : List Obj) : Option Obj :=
 def every (f : List Obj → Obj) (seqs : List (List Obj)) : Obj :=
   ofBool ((tuples seqs).all (fun tup => truthy (f tup)))
 
-/-- `some`. slip documents the result as a boolean ("returns true if the predicate … returns true at
-    least once", Return: boolean) where the language returns the predicate's value; the model
-    follows slip's documentation. -/
-def some' (f : List Obj → Obj) (seqs : List (List Obj)) : Obj :=
-  ofBool ((tuples seqs).any (fun tup => truthy (f tup)))
+/-- the value of the first tuple on which the function is true; `nil` when there is none -/
+def firstTruthy (f : List Obj → Obj) : List (List Obj) → Obj
+  | [] => .nil
+  | t :: ts => if truthy (f t) then f t else firstTruthy f ts
+
+/-- `some`: "returns the first non-nil value which is returned by an invocation of predicate" -/
+def some' (f : List Obj → Obj) (seqs : List (List Obj)) : Obj := firstTruthy f (tuples seqs)
 
 /-- `notany` -/
 def notany (f : List Obj → Obj) (seqs : List (List Obj)) : Obj :=
